@@ -4,43 +4,106 @@ package c21
 
 import (
 	"fmt"
+	"os"
+	"sort"
+	"strconv"
 	"testing"
 
 	"github.com/go-git/go-git/v6/verifsim/core"
 )
 
-// TestOpDeterminism: the sequence of disk operations of every planned call
-// must be a pure function of the plan (no Go map iteration order leaking into
-// I/O order), otherwise "crash at the k-th mutation" does not replay.
-func TestOpDeterminism(t *testing.T) {
-	bad := map[string]int{}
+// detPlans returns, per operation kind, a spread of plans (fixed seeds).
+func detPlans(perKind int) map[string][]*Plan {
+	out := map[string][]*Plan{}
 	for _, op := range opKinds {
-		for s := uint64(0); s < 12; s++ {
+		for s := uint64(0); s < uint64(perKind); s++ {
 			p := &Plan{RepoSeed: s, Repack: s%2 == 0, PackRefs: s%3 == 0, Op: op, OpSeed: s}
-			var ref string
-			var refTrace []string
-			for i := 0; i < 6; i++ {
-				o := execPlan(t, p)
-				h := core.HashStrings(o.Trace)
-				if i == 0 {
-					ref = h
-					refTrace = o.Trace
-				} else if h != ref {
-					bad[op]++
-					if bad[op] == 1 {
-						for j := range refTrace {
-							if j >= len(o.Trace) || refTrace[j] != o.Trace[j] {
-								fmt.Println("DIFF", op, s, "at", j, "\n A:", refTrace[j])
-								if j < len(o.Trace) {
-									fmt.Println(" B:", o.Trace[j])
+			if isNetKind(op) {
+				p.RepoSeed, p.Repack, p.PackRefs = 0, false, false
+				p.Net = genNet(core.NewRand(1000+s*77), op, "quick")
+			}
+			out[op] = append(out[op], p)
+		}
+	}
+	return out
+}
+
+// TestOpDeterminism: the sequence of mutating disk operations of every planned
+// call must be a pure function of the plan (no Go map iteration order, no
+// goroutine interleaving leaking into I/O order on the crashing disk),
+// otherwise "crash at the k-th mutation" does not replay. N repetitions of the
+// dry run of every plan must give the identical mutation sequence; for the
+// network kinds a crashing run in the middle is repeated as well (the peer
+// goroutine is still running when the crash hits).
+func TestOpDeterminism(t *testing.T) {
+	reps, perKind := 6, 12
+	if v, err := strconv.Atoi(os.Getenv("C21_DET_REPS")); err == nil && v > 0 {
+		reps = v
+	}
+	if v, err := strconv.Atoi(os.Getenv("C21_DET_PLANS")); err == nil && v > 0 {
+		perKind = v
+	}
+	bad := map[string]int{}
+	muts := map[string][]int{}
+	plans := detPlans(perKind)
+	for _, op := range opKinds {
+		for _, p0 := range plans[op] {
+			variants := []*Plan{p0}
+			if ms, err := dryRun(t, p0); err == nil {
+				muts[op] = append(muts[op], len(ms))
+				if isNetKind(op) && len(ms) > 2 {
+					c := *p0
+					c.CrashAt, c.Torn = len(ms)/2, 1
+					c2 := *p0
+					c2.CrashAt, c2.Torn = len(ms)-1, 3
+					variants = append(variants, &c, &c2)
+				}
+			} else {
+				fmt.Println("DRY RUN FAILED", op, err)
+				bad[op]++
+			}
+			for _, p := range variants {
+				var ref, refState string
+				var refTrace []string
+				for i := 0; i < reps; i++ {
+					c := *p
+					o := execPlan(t, &c)
+					h := o.LogHash + "|" + o.Signature + "|" + o.Inconclusive
+					if i == 0 {
+						ref, refState, refTrace = h, o.StateHash, o.Trace
+						continue
+					}
+					if h != ref || o.StateHash != refState {
+						bad[op]++
+						if bad[op] == 1 {
+							fmt.Println("DIFF", op, "crash_at", p.CrashAt, "\n A:", ref, refState, "\n B:", h, o.StateHash)
+							for j := range refTrace {
+								if j >= len(o.Trace) || refTrace[j] != o.Trace[j] {
+									fmt.Println(" at", j, "\n A:", refTrace[j])
+									if j < len(o.Trace) {
+										fmt.Println(" B:", o.Trace[j])
+									}
+									break
 								}
-								break
 							}
 						}
+						break
 					}
-					break
 				}
 			}
+		}
+	}
+	kinds := append([]string{}, opKinds...)
+	sort.Strings(kinds)
+	for _, k := range kinds {
+		ms := append([]int{}, muts[k]...)
+		sort.Ints(ms)
+		if len(ms) > 0 {
+			sum := 0
+			for _, v := range ms {
+				sum += v
+			}
+			fmt.Printf("mutations %-22s min %3d  median %3d  max %3d  mean %5.1f  (%d plans)\n", k, ms[0], ms[len(ms)/2], ms[len(ms)-1], float64(sum)/float64(len(ms)), len(ms))
 		}
 	}
 	fmt.Println("nondeterministic ops:", bad)
